@@ -12,6 +12,33 @@ WRAPPING = {"wrapping_add": "Add", "wrapping_sub": "Sub", "wrapping_mul": "Mul"}
 CHECKED = {"AddWithOverflow": "Add", "SubWithOverflow": "Sub", "MulWithOverflow": "Mul"}
 
 
+CONST_BODIES = {}       # key -> body facts of generic constants (set by facts.Facts); `const INDEX_MASK: usize = BUFFER_SIZE - 1` reads as its defining expression
+_CONST_EXPR = {}
+
+def _pure_arith(e, depth=0):
+    if not isinstance(e, tuple) or depth > 8: return False
+    if e[0] in ("const", "gconst"): return True
+    if e[0] == "cast": return _pure_arith(e[2], depth + 1)
+    if e[0] == "bin": return _pure_arith(e[2], depth + 1) and _pure_arith(e[3], depth + 1)
+    if e[0] == "un": return _pure_arith(e[2], depth + 1)
+    return False
+
+def const_expr(key):
+    """a generic constant whose initialiser is plain arithmetic over generic parameters and literals (on its only non-diverging path) is replaced by that
+    expression; anything else stays the opaque symbol ('gconst', key)"""
+    if key in _CONST_EXPR: return _CONST_EXPR[key]
+    _CONST_EXPR[key] = ("gconst", key)            # recursion guard
+    f = CONST_BODIES.get(key)
+    if f is not None:
+        try:
+            from mir import Body
+            e = Dag(Body(f)).local(0)
+            if _pure_arith(e) and e[0] != "gconst": _CONST_EXPR[key] = e
+        except Exception:
+            pass
+    return _CONST_EXPR[key]
+
+
 class Dag:
     def __init__(self, body):
         self.body = body
@@ -27,7 +54,7 @@ class Dag:
             if k.get("param"):
                 return ("gconst", k["param"])
             if k.get("uneval"):
-                return ("gconst", k["uneval"])
+                return const_expr(k["uneval"])
             if k.get("fn"):
                 return ("fn", k["fn"])
             return ("const", k["s"])
